@@ -545,8 +545,100 @@ def rule_leftover(repo: Repo, rid: str, specs: List[str]) -> RuleResult:
     return r
 
 
+def rule_typedlist(repo: Repo, rid: str, specs: List[str], lookup_required: bool = True) -> RuleResult:
+    """dash-grouped typed lists `a b - t c - u d`: every collected name gets the type named after the dash (unknown type names are
+    rejected), the group is reset after it was flushed, the current token is collected otherwise."""
+    r = RuleResult(rid, "typed lists: each group 'n1 n2 - t' gives all its names the type t (unknown t rejected), then the group is reset",
+                   "names, parameter order and parameter types of the declarations")
+    for spec in specs:
+        f = repo.func(spec)
+        g = C.cfg_of(f.node)
+        p = L.prov(repo, f)
+        accs = {}
+        for c in L.calls_in(f.node):
+            if isinstance(c.func, ast.Attribute) and c.func.attr == "append" and isinstance(c.func.value, ast.Name):
+                n = g.node_containing(c)
+                if n is not None and g.loop_of.get(n) is not None:
+                    accs[c.func.value.id] = (g.loop_of[n], c)
+        if not accs:
+            raise AnalysisError(f"{spec}: token accumulator not recognised (dash-grouped list idiom changed)")
+        for acc, (loop_head, app) in accs.items():
+            top = loop_head
+            while g.loop_of.get(top) is not None:
+                top = g.loop_of[top]
+            inloop = C.reachable_from(g, top, follow=lambda a, b, l: not (a == top and l == "done")) - {top}
+            # flush nodes: statements inside the loop that read the accumulator (other than the append / a re-initialisation)
+            flush, resets = [], []
+            for n in inloop:
+                st = g.stmt[n]
+                if st is None:
+                    continue
+                h = C.header(st)
+                if isinstance(st, ast.Assign) and any(isinstance(t, ast.Name) and t.id == acc for t in st.targets):
+                    if isinstance(st.value, (ast.List, ast.Call)) and not any(isinstance(x, ast.Name) and x.id == acc for x in ast.walk(st.value)):
+                        resets.append(n)
+                    continue
+                if h is not None and any(isinstance(x, ast.Name) and x.id == acc for x in ast.walk(h)):
+                    if g.node_containing(app) == n:
+                        continue
+                    if isinstance(st, (ast.If, ast.Assert)) and not any(isinstance(x, (ast.Call,)) and isinstance(x.func, ast.Attribute) and x.func.attr in ("update", "add", "append") for x in ast.walk(h)):
+                        continue  # a validation of the group (e.g. every name starts with '?')
+                    flush.append(n)
+                if isinstance(st, ast.Expr) and isinstance(st.value, ast.Call) and isinstance(st.value.func, ast.Attribute) and st.value.func.attr == "clear" \
+                        and isinstance(st.value.func.value, ast.Name) and st.value.func.value.id == acc:
+                    resets.append(n)
+            r.site(f"{f.qn} [{acc}: flush]")
+            if not flush:
+                r.fail(Finding(rid, f, f"group-never-flushed:{acc}", f"names collected in {acc} are never given their type inside the loop"))
+                continue
+            # (1) reset after flush on every way back to the loop head
+            leaky = []
+            for fl in flush:
+                seen = C.reachable_from(g, fl, avoid=resets)
+                if top in seen and fl not in resets:
+                    leaky.append(fl)
+            if leaky:
+                r.fail(Finding(rid, f, f"group-not-reset:{acc}", f"after a group was given its type {acc} is not emptied on every path: the names of the "
+                               f"previous group are typed again by the next '- type'", node=g.stmt[leaky[0]]))
+            else:
+                r.ok({"function": f.qn, "accumulator": acc, "reset_after_flush": True})
+            # (2) the type comes from the token after the dash, through a lookup that rejects unknown names
+            r.site(f"{f.qn} [{acc}: type lookup]")
+            listparam = [x for x in f.params if x != f.self_name][0]
+            good = bad = None
+            for fl in flush:
+                st = g.stmt[fl]
+                for sub in ast.walk(st if not isinstance(st, ast.For) else ast.Module(body=st.body, type_ignores=[])):
+                    if isinstance(sub, ast.Subscript) and not isinstance(sub.slice, ast.Slice):
+                        tr_key = p.trace(sub.slice)
+                        tr_map = p.trace(sub.value)
+                        if any(x[0] == f"param:{listparam}" for x in tr_key) and any("types" in "/".join(x) for x in tr_map):
+                            good = sub
+                    if isinstance(sub, ast.Call) and isinstance(sub.func, ast.Attribute) and sub.func.attr == "get" and len(sub.args) == 2 and \
+                            any("types" in "/".join(x) for x in p.trace(sub.func.value)):
+                        bad = sub
+            if not lookup_required:
+                r.ok({"function": f.qn, "type_lookup": "creates types (no lookup required)"})
+            elif good is not None and bad is None:
+                r.ok({"function": f.qn, "type_lookup": unparse(good, 60)})
+            elif bad is not None:
+                r.fail(Finding(rid, f, f"type-default:{acc}", f"{unparse(bad, 60)} falls back to a default for an unknown type name instead of rejecting it", node=bad))
+            else:
+                r.fail(Finding(rid, f, f"type-source:{acc}", "the type given to a group does not come from a lookup keyed by the token after the dash"))
+            # (3) the current token is what is collected
+            r.site(f"{f.qn} [{acc}: collect]")
+            tr = p.trace(app.args[0]) if app.args else set()
+            if any(x[0] == f"param:{listparam}" for x in tr):
+                r.ok({"collects": unparse(app.args[0])})
+            else:
+                r.fail(Finding(rid, f, f"collect:{acc}", f"{unparse(app)} does not collect the current token"))
+    r.require_sites(3 * len(specs))
+    return r
+
+
 def rules(repo: Repo, tier: str) -> List[RuleResult]:
     return [
+        rule_typedlist(repo, "C01.typedlist", ["lisp_parsers.parsing_utils::parse_signature", "DomainParser.parse_constants"]),
         rule_nodrop(repo, "C01.nodrop", PARSER_MODS, 4),
         rule_headstrip(repo, "C01.headstrip", ("lisp_parsers.domain_parser", "lisp_parsers.preconditions_parser", "lisp_parsers.effects_parser"), 6),
         rule_polarity(repo),
